@@ -476,9 +476,12 @@ class SpecMixin:
                 k = self.sv(e.args[0], ctx)
                 d = self.sv(e.args[1], ctx).t if len(e.args) > 1 else smt.NONE
                 return SV(z3.If(self.dict_has(st, base.t, k.t), self.dict_val(st, base.t, k.t), d))
-            if base.ty == "str" and m in ("upper", "lower"):
+            if m in ("upper", "lower") and not e.args:
                 f = self.get_uf("str_" + m, [smt.StrS], smt.StrS)
                 return SV(smt.mk_str(f(Val.s(base.t))), "str")
+            if m == "translate" and len(e.args) == 1:
+                f = self.get_uf("str_translate", [smt.StrS, Val], smt.StrS)
+                return SV(smt.mk_str(f(Val.s(base.t), self.sv(e.args[0], ctx).t)), "str")
             if m in ("isalnum", "isdigit", "isspace", "isidentifier", "isalpha") and not e.args:
                 f = self.get_uf("str_" + m, [smt.StrS], z3.BoolSort())
                 return sv_bool(f(Val.s(base.t)))
